@@ -65,6 +65,9 @@ pub enum Identity {
     Expired,
     SelfSigned,
     UnknownCa,
+    /// valid in every respect, but its notAfter lies ~20 seconds in the past: minted with the openssl CLI when the pass
+    /// starts (skipped, and counted, when that is not possible); decides "expired" for verifiers with a leeway
+    JustExpired,
 }
 #[derive(Clone, Copy, Debug, PartialEq, Eq, Serialize, Deserialize, PartialOrd, Ord)]
 pub enum Host {
@@ -87,7 +90,7 @@ impl Cell {
         for client in [Client::Blocking, Client::Async] {
             for flag in [Flag::Unset, Flag::False, Flag::True] {
                 for roots in [Roots::None, Roots::CorrectPem, Roots::CorrectDer, Roots::UnrelatedPem, Roots::UnrelatedThenCorrectPem, Roots::CorrectDerThenUnrelated] {
-                    for identity in [Identity::Valid, Identity::WrongHost, Identity::Expired, Identity::SelfSigned, Identity::UnknownCa] {
+                    for identity in [Identity::Valid, Identity::WrongHost, Identity::Expired, Identity::SelfSigned, Identity::UnknownCa, Identity::JustExpired] {
                         for host in [Host::Localhost, Host::Ip] {
                             v.push(Cell { client, flag, roots, identity, host });
                         }
@@ -110,7 +113,7 @@ impl Cell {
             match self.client { Client::Blocking => "blocking", Client::Async => "async" },
             match self.flag { Flag::Unset => "unset", Flag::False => "false", Flag::True => "true" },
             match self.roots { Roots::None => "none", Roots::CorrectPem => "pem", Roots::CorrectDer => "der", Roots::UnrelatedPem => "unrelated", Roots::UnrelatedThenCorrectPem => "unrelated+pem", Roots::CorrectDerThenUnrelated => "der+unrelated" },
-            match self.identity { Identity::Valid => "valid", Identity::WrongHost => "wronghost", Identity::Expired => "expired", Identity::SelfSigned => "selfsigned", Identity::UnknownCa => "unknownca" },
+            match self.identity { Identity::Valid => "valid", Identity::WrongHost => "wronghost", Identity::Expired => "expired", Identity::SelfSigned => "selfsigned", Identity::UnknownCa => "unknownca", Identity::JustExpired => "justexpired" },
             match self.host { Host::Localhost => "localhost", Host::Ip => "ip" },
         )
     }
@@ -131,8 +134,10 @@ fn server_config(id: Identity) -> Arc<rustls::ServerConfig> {
         Identity::Expired => "expired",
         Identity::SelfSigned => "selfsigned",
         Identity::UnknownCa => "unknownca",
+        Identity::JustExpired => "valid", // key of the valid leaf, freshly minted certificate
     };
-    let cert = rustls::pki_types::CertificateDer::from(fixture(&format!("{base}.cert.der")));
+    let cert_bytes = if id == Identity::JustExpired { JUST_EXPIRED.get().and_then(|c| c.clone()).expect("just-expired certificate minted") } else { fixture(&format!("{base}.cert.der")) };
+    let cert = rustls::pki_types::CertificateDer::from(cert_bytes);
     let key = rustls::pki_types::PrivateKeyDer::Pkcs8(rustls::pki_types::PrivatePkcs8KeyDer::from(fixture(&format!("{base}.key.der"))));
     let cfg = rustls::ServerConfig::builder_with_provider(Arc::new(rustls::crypto::ring::default_provider()))
         .with_safe_default_protocol_versions()
@@ -141,6 +146,46 @@ fn server_config(id: Identity) -> Arc<rustls::ServerConfig> {
         .with_single_cert(vec![cert], key)
         .expect("server cert");
     Arc::new(cfg)
+}
+
+/// DER of the just-expired leaf of this pass (None when it could not be minted)
+static JUST_EXPIRED: std::sync::OnceLock<Option<Vec<u8>>> = std::sync::OnceLock::new();
+
+fn utc_stamp(secs: u64) -> String {
+    // civil-from-days (proleptic Gregorian), no external crates
+    let days = (secs / 86_400) as i64;
+    let rem = secs % 86_400;
+    let z = days + 719_468;
+    let era = z.div_euclid(146_097);
+    let doe = z.rem_euclid(146_097);
+    let yoe = (doe - doe / 1_460 + doe / 36_524 - doe / 146_096) / 365;
+    let y = yoe + era * 400;
+    let doy = doe - (365 * yoe + yoe / 4 - yoe / 100);
+    let mp = (5 * doy + 2) / 153;
+    let d = doy - (153 * mp + 2) / 5 + 1;
+    let m = if mp < 10 { mp + 3 } else { mp - 9 };
+    let y = if m <= 2 { y + 1 } else { y };
+    format!("{:04}{:02}{:02}{:02}{:02}{:02}Z", y, m, d, rem / 3600, (rem % 3600) / 60, rem % 60)
+}
+
+/// mint a leaf signed by the test CA for the valid leaf's key: notBefore = now - 1 h, notAfter = now - 20 s
+fn mint_just_expired() -> Option<Vec<u8>> {
+    let fx = verif_root().join("fixtures/tls");
+    let work = verif_root().join("work").join(format!("c12-mint-{}", std::process::id()));
+    std::fs::create_dir_all(&work).ok()?;
+    let now = std::time::SystemTime::now().duration_since(std::time::UNIX_EPOCH).ok()?.as_secs();
+    let run = |args: &[&str]| std::process::Command::new("openssl").args(args).stdin(std::process::Stdio::null()).stdout(std::process::Stdio::null()).stderr(std::process::Stdio::null()).status().map(|s| s.success()).unwrap_or(false);
+    let csr = work.join("je.csr");
+    let ext = work.join("je.ext");
+    let pem = work.join("je.pem");
+    let der = work.join("je.der");
+    std::fs::write(&ext, "basicConstraints=critical,CA:FALSE\nkeyUsage=critical,digitalSignature\nextendedKeyUsage=serverAuth\nsubjectAltName=DNS:localhost,IP:127.0.0.1\n").ok()?;
+    let ok = run(&["req", "-new", "-key", fx.join("valid.key.pem").to_str()?, "-subj", "/CN=sim printer justexpired", "-out", csr.to_str()?])
+        && run(&["x509", "-req", "-in", csr.to_str()?, "-CA", fx.join("testca.cert.pem").to_str()?, "-CAkey", fx.join("testca.key.pem").to_str()?, "-set_serial", &format!("{}", now), "-sha256", "-not_before", &utc_stamp(now - 3600), "-not_after", &utc_stamp(now - 20), "-extfile", ext.to_str()?, "-out", pem.to_str()?])
+        && run(&["x509", "-in", pem.to_str()?, "-outform", "DER", "-out", der.to_str()?]);
+    let out = if ok { std::fs::read(&der).ok() } else { None };
+    let _ = std::fs::remove_dir_all(&work);
+    out
 }
 
 struct TlsPrinter {
@@ -172,6 +217,21 @@ impl TlsPrinter {
                 let (cfg, scripts, stop3, seen3) = (cfg.clone(), scripts.clone(), stop2.clone(), seen2.clone());
                 let h = std::thread::spawn(move || {
                     let raw = s.try_clone().expect("clone");
+                    // dual-protocol, as cupsd is: a connection that does not open with a TLS handshake record is served
+                    // as plain HTTP — a client that falls back to cleartext after a failed handshake is seen delivering
+                    // its request (application bytes > 0) instead of being met by a TLS-only dead end
+                    let _ = raw.set_read_timeout(Some(Duration::from_millis(2000)));
+                    let mut first = [0u8; 1];
+                    if let Ok(1) = raw.peek(&mut first) {
+                        if first[0] != 0x16 {
+                            let mut plain = s;
+                            let (mut sc, h) = serve(&mut plain, &raw, &scripts, &stop3, false);
+                            sc.handshake_error = Some("cleartext connection (no TLS handshake)".into());
+                            seen3.lock().unwrap().push(sc);
+                            hang_up(&raw, h);
+                            return;
+                        }
+                    }
                     let conn = match rustls::ServerConnection::new(cfg) {
                         Ok(c) => c,
                         Err(_) => return,
@@ -224,6 +284,7 @@ pub struct CellResult {
     pub error: Option<String>,
     pub server_app_bytes: usize,
     pub server_connections: usize,
+    pub cleartext_connections: usize,
     pub response_equal: Option<bool>,
     pub violation: Option<(String, String)>,
     pub ms: u64,
@@ -240,7 +301,7 @@ pub fn run_cell(cell: &Cell, seed: u64) -> CellResult {
         _ => Framing::CloseDelimited,
     };
     let script = Script { status: 200, framing, ipp: ipp.clone(), trailing: vec![], segments: vec![*rng.pick(&[5u32, 64, 4096])], fault: None, reset_request_after: None, drip_ms: 0 };
-    let mut res = CellResult { cell: cell.describe(), must_accept: cell.must_accept(), accepted: false, error: None, server_app_bytes: 0, server_connections: 0, response_equal: None, violation: None, ms: 0 };
+    let mut res = CellResult { cell: cell.describe(), must_accept: cell.must_accept(), accepted: false, error: None, server_app_bytes: 0, server_connections: 0, cleartext_connections: 0, response_equal: None, violation: None, ms: 0 };
     let printer = match TlsPrinter::start(cell.identity, script) {
         Ok(p) => p,
         Err(e) => {
@@ -305,7 +366,15 @@ pub fn run_cell(cell: &Cell, seed: u64) -> CellResult {
     let seen = printer.stop();
     res.server_connections = seen.len();
     res.server_app_bytes = seen.iter().map(|c| c.app_bytes).sum();
+    res.cleartext_connections = seen.iter().filter(|c| c.handshake_error.as_deref().map(|e| e.starts_with("cleartext")).unwrap_or(false)).count();
     res.ms = t0.elapsed().as_millis() as u64;
+    if res.cleartext_connections > 0 {
+        res.violation = Some((
+            format!("request-sent-in-cleartext {}", cell.describe()),
+            format!("the client opened {} connection(s) without TLS to an ipps/https target and delivered {} application bytes", res.cleartext_connections, res.server_app_bytes),
+        ));
+        return res;
+    }
     match outcome {
         Err(p) => {
             res.error = Some(format!("panic: {p}"));
@@ -372,11 +441,18 @@ pub struct Half {
 pub fn run_matrix(seed: u64, tier: Tier) -> Half {
     let t0 = Instant::now();
     let reps = if tier == Tier::Thorough { 3 } else { 1 };
+    let minted = JUST_EXPIRED.get_or_init(mint_just_expired).is_some();
+    if !minted {
+        println!("C12: note: the just-expired identity could not be minted (openssl CLI unavailable?); its cells are skipped");
+    }
     let mut cells: Vec<(Cell, u64)> = Vec::new();
     for r in 0..reps {
         let mut cs = Cell::all();
         let mut rng = Rng::new(mix(seed, 0x5eed + r));
         rng.shuffle(&mut cs);
+        cs.retain(|c| c.identity != Identity::JustExpired || (minted && r == 0));
+        // the just-expired cells go first: they must run within seconds of the minting
+        cs.sort_by_key(|c| c.identity != Identity::JustExpired);
         for (i, c) in cs.into_iter().enumerate() {
             cells.push((c, mix(seed, (r << 16) + i as u64)));
         }
@@ -516,7 +592,7 @@ fn write_evidence(tier: Tier, seed: u64, results: &[Value], wall: f64, violation
             "evaluations": results.len(),
             "distinct_nontrivial": distinct_reject.len(),
             "distinct_cells": distinct.len(),
-            "rule": "Complete enumeration of the matrix client {blocking, async} x ignore flag {unset, false, true} x extra roots {none, correct PEM, correct DER, unrelated PEM, unrelated then correct PEM, correct DER then unrelated} x server identity {valid, wrong host (SAN printer.invalid), expired (2020-01..2020-02), self-signed leaf, signed by an unknown CA} x URI host {localhost, 127.0.0.1} = 360 cells per TLS backend, for both backends (native-tls and rustls; one harness build each), each once with the machine's trust store and once with an EMPTY system trust store (SSL_CERT_FILE / SSL_CERT_DIR pointed at empty fixtures; a separate process because the stores are cached per process) = 1440 real handshakes per repetition (quick: 1 repetition, thorough: 3 with different seeds) against an in-process rustls server on loopback; the seed permutes the order and draws the request/response. Oracle: accept iff flag == true or (identity == valid and the correct root is among those supplied through the builder); accept => Ok and response equal to the scripted one; reject => Err and the server application received 0 bytes after the handshake. distinct_nontrivial = distinct must-reject cells executed (the fault cells); distinct_cells = all distinct cells.",
+            "rule": "Complete enumeration of the matrix client {blocking, async} x ignore flag {unset, false, true} x extra roots {none, correct PEM, correct DER, unrelated PEM, unrelated then correct PEM, correct DER then unrelated} x server identity {valid, wrong host (SAN printer.invalid), expired (2020-01..2020-02), self-signed leaf, signed by an unknown CA, expired 20 seconds ago (minted at the start of each pass with the openssl CLI; skipped if that is unavailable)} x URI host {localhost, 127.0.0.1} = 432 cells per TLS backend, for both backends (native-tls and rustls; one harness build each), each once with the machine's trust store and once with an EMPTY system trust store (SSL_CERT_FILE / SSL_CERT_DIR pointed at empty fixtures; a separate process because the stores are cached per process) = 1728 real handshakes per repetition (quick: 1 repetition, thorough: 3 with different seeds) against an in-process server on loopback that speaks TLS (rustls) and, like cupsd, also plain HTTP on the same port (a client that falls back to cleartext is seen delivering its request); the seed permutes the order and draws the request/response. Oracle: accept iff flag == true or (identity == valid and the correct root is among those supplied through the builder); accept => Ok and response equal to the scripted one; reject => Err and the server application received 0 bytes after the handshake. distinct_nontrivial = distinct must-reject cells executed (the fault cells); distinct_cells = all distinct cells.",
             "exhaustive": true,
             "samples": samples,
             "fired": fired,
